@@ -94,6 +94,19 @@ func inspectDepth(root ast.Node, f func(ast.Node) bool, depth int, stack []*prog
 		if info == nil {
 			return ok
 		}
+		// a local closure with parameters, bound once to a local and called: its body is traversed
+		// at each call with the parameters standing for that call's arguments
+		if id, isID := ast.Unparen(call.Fun).(*ast.Ident); isID {
+			if lit := localClosure(info, id); lit != nil && !(call.Pos() >= lit.Pos() && call.End() <= lit.End()) {
+				frame := bindFrame(info, lit.Type, call)
+				defer func() {
+					bindStack = append(bindStack, frame)
+					inspectDepth(lit.Body, f, depth+1, stack)
+					bindStack = bindStack[:len(bindStack)-1]
+				}()
+				return ok
+			}
+		}
 		fi := p.FuncInfoOf(p.CalleeFunc(info, call))
 		if !isNewHelper(p, fi) || interface{}(fi.Pkg) != rootPkg {
 			return ok
@@ -103,10 +116,77 @@ func inspectDepth(root ast.Node, f func(ast.Node) bool, depth int, stack []*prog
 				return ok
 			}
 		}
-		// the call's own operands are visited by the enclosing traversal; then the body
-		defer inspectDepth(fi.Decl.Body, f, depth+1, append(stack, fi))
+		// the call's own operands are visited by the enclosing traversal; then the body, with the
+		// helper's parameters standing for this call's arguments
+		frame := bindFrame(info, fi.Decl.Type, call)
+		defer func() {
+			bindStack = append(bindStack, frame)
+			inspectDepth(fi.Decl.Body, f, depth+1, append(stack, fi))
+			bindStack = bindStack[:len(bindStack)-1]
+		}()
 		return ok
 	})
+}
+
+// bindStack holds, during an inspect traversal that descended into the body of an extracted
+// helper or a local closure, what that body's parameters stand for at the call being followed.
+// derefStep consults it first, which makes parameter resolution specific to the call site (a
+// helper called from two places resolves differently in each descent).
+var bindStack []map[types.Object]ast.Expr
+
+func bindFrame(info *types.Info, ft *ast.FuncType, call *ast.CallExpr) map[types.Object]ast.Expr {
+	frame := map[types.Object]ast.Expr{}
+	if ft.Params == nil {
+		return frame
+	}
+	k := 0
+	for _, fld := range ft.Params.List {
+		_, variadic := fld.Type.(*ast.Ellipsis)
+		for _, n := range fld.Names {
+			if !variadic && k < len(call.Args) && call.Ellipsis == token.NoPos {
+				if o := info.Defs[n]; o != nil {
+					frame[o] = call.Args[k]
+				}
+			}
+			k++
+		}
+		if len(fld.Names) == 0 {
+			k++
+		}
+	}
+	return frame
+}
+
+// boundArg returns what a parameter stands for in the innermost descent that binds it.
+func boundArg(o types.Object) ast.Expr {
+	for i := len(bindStack) - 1; i >= 0; i-- {
+		if e, ok := bindStack[i][o]; ok {
+			return e
+		}
+	}
+	return nil
+}
+
+// localClosure: id names a local variable with exactly one definition, a function literal with
+// parameters (refill := func(index int) {...}); the literal is returned.
+func localClosure(info *types.Info, id *ast.Ident) *ast.FuncLit {
+	v, ok := info.Uses[id].(*types.Var)
+	if !ok || v.IsField() || v.Pkg() == nil || v.Parent() == v.Pkg().Scope() {
+		return nil
+	}
+	if _, isSig := v.Type().Underlying().(*types.Signature); !isSig {
+		return nil
+	}
+	sc := curProg.ScopeAt(id.Pos())
+	if sc == nil || sc.Fn == nil || sc.Fn.Decl == nil || sc.Fn.Decl.Body == nil {
+		return nil
+	}
+	def := localDefPlain(info, sc.Fn.Decl.Body, v)
+	lit, _ := ast.Unparen(def).(*ast.FuncLit)
+	if lit == nil || lit.Type.Params == nil || len(lit.Type.Params.List) == 0 {
+		return nil
+	}
+	return lit
 }
 
 func init() {
@@ -205,6 +285,9 @@ func derefStep(info *types.Info, id *ast.Ident) ast.Expr {
 	obj, ok := info.Uses[id].(*types.Var)
 	if !ok || obj.IsField() || obj.Pkg() == nil || obj.Parent() == obj.Pkg().Scope() {
 		return nil
+	}
+	if e := boundArg(obj); e != nil {
+		return e
 	}
 	sc := p.ScopeAt(id.Pos())
 	if sc == nil || sc.Fn == nil || sc.Fn.Decl == nil || sc.Fn.Decl.Body == nil {
@@ -470,4 +553,161 @@ func unwrapLit(p *prog.Prog, info *types.Info, lit *ast.FuncLit) *ast.FuncLit {
 		lit = synthLit(hf)
 	}
 	return lit
+}
+
+// isIIFE reports whether lit is invoked where it is written (`func() {...}()`, not under go/defer):
+// its body runs synchronously as part of the enclosing function.
+func isIIFE(p *prog.Prog, lit *ast.FuncLit) bool {
+	f := p.FileAt(lit.Pos())
+	if f == nil {
+		return false
+	}
+	path := p.PathTo(f, lit.Pos(), lit.End())
+	for i := len(path) - 1; i > 0; i-- {
+		if path[i] != ast.Node(lit) {
+			continue
+		}
+		j := i - 1
+		for j > 0 {
+			if _, ok := path[j].(*ast.ParenExpr); !ok {
+				break
+			}
+			j--
+		}
+		call, ok := path[j].(*ast.CallExpr)
+		if !ok || ast.Unparen(call.Fun) != ast.Expr(lit) {
+			return false
+		}
+		if j > 0 {
+			switch path[j-1].(type) {
+			case *ast.GoStmt, *ast.DeferStmt:
+				return false
+			}
+		}
+		return true
+	}
+	return false
+}
+
+// valueOrigin follows an expression back to the call result it holds: an identifier goes to its
+// single definition; `a, b := f()` gives (f(), index); a call of an extracted helper goes on
+// through the helper's return statements (results that are zero values - T{}, nil, 0, false, "" -
+// are the "nothing" paths and are ignored; the remaining results must agree). idx selects the
+// result when e itself is a call. At most five steps; (nil, 0) when the origin is not a call.
+func valueOrigin(info *types.Info, e ast.Expr, idx int) (*ast.CallExpr, int) {
+	p := curProg
+	for step := 0; step < 5 && e != nil; step++ {
+		e = ast.Unparen(e)
+		switch x := e.(type) {
+		case *ast.CallExpr:
+			hf := p.FuncInfoOf(p.CalleeFunc(info, x))
+			if !isNewHelper(p, hf) {
+				return x, idx
+			}
+			var next ast.Expr
+			nextIdx := 0
+			agree := true
+			ast.Inspect(hf.Decl.Body, func(n ast.Node) bool {
+				if _, ok := n.(*ast.FuncLit); ok {
+					return false
+				}
+				ret, ok := n.(*ast.ReturnStmt)
+				if !ok || len(ret.Results) == 0 {
+					return true
+				}
+				var res ast.Expr
+				ri := 0
+				if len(ret.Results) == 1 {
+					res = ret.Results[0]
+					if tup, isTup := info.TypeOf(res).(*types.Tuple); isTup && tup.Len() > 1 {
+						ri = idx // `return g()` forwarding several results
+					} else if idx != 0 {
+						return true
+					}
+				} else if idx < len(ret.Results) {
+					res = ret.Results[idx]
+				} else {
+					return true
+				}
+				if isZeroValueExpr(info, res) {
+					return true
+				}
+				if next == nil {
+					next, nextIdx = res, ri
+				} else if types.ExprString(next) != types.ExprString(res) || nextIdx != ri {
+					agree = false
+				}
+				return true
+			})
+			if next == nil || !agree {
+				return x, idx
+			}
+			e, idx = next, nextIdx
+		case *ast.Ident:
+			obj, ok := info.Uses[x].(*types.Var)
+			if !ok || obj.IsField() {
+				return nil, 0
+			}
+			if b := boundArg(obj); b != nil {
+				e, idx = b, 0
+				continue
+			}
+			sc := p.ScopeAt(obj.Pos())
+			if sc == nil || sc.Fn == nil || sc.Fn.Decl == nil || sc.Fn.Decl.Body == nil {
+				return nil, 0
+			}
+			var def ast.Expr
+			defIdx, n := 0, 0
+			ast.Inspect(sc.Fn.Decl.Body, func(nd ast.Node) bool {
+				as, ok := nd.(*ast.AssignStmt)
+				if !ok {
+					return true
+				}
+				for i, l := range as.Lhs {
+					if prog.IdentObj(info, l) != types.Object(obj) {
+						continue
+					}
+					n++
+					if len(as.Lhs) == len(as.Rhs) {
+						def, defIdx = as.Rhs[i], 0
+					} else if len(as.Rhs) == 1 {
+						def, defIdx = as.Rhs[0], i
+					}
+				}
+				return true
+			})
+			if n != 1 || def == nil {
+				// a parameter of an extracted helper with one call site
+				if d := derefStep(info, x); d != nil && d != ast.Expr(x) {
+					e, idx = d, 0
+					continue
+				}
+				return nil, 0
+			}
+			e, idx = def, defIdx
+		default:
+			return nil, 0
+		}
+	}
+	return nil, 0
+}
+
+// isZeroValueExpr: nil, false, 0, "" or an empty composite literal.
+func isZeroValueExpr(info *types.Info, e ast.Expr) bool {
+	e = ast.Unparen(e)
+	if tv, ok := info.Types[e]; ok {
+		if tv.IsNil() {
+			return true
+		}
+		if tv.Value != nil {
+			switch tv.Value.String() {
+			case "false", "0", `""`:
+				return true
+			}
+		}
+	}
+	if cl, ok := e.(*ast.CompositeLit); ok && len(cl.Elts) == 0 {
+		return true
+	}
+	return false
 }
